@@ -111,3 +111,14 @@ Theorem C10_offset_by_time_on_monotone_histories :
   end.
 Proof. exact OffsetProofs.offset_by_time_on_monotone_histories. Qed.
 Print Assumptions C10_offset_by_time_on_monotone_histories.
+
+(* the same on EVERY state a monotone history reaches - also the handle of a read-only Open on an empty directory
+   (no writer, no segment files), which the statement above left out *)
+Theorem C10_on_all_monotone_histories :
+  forall (H : bytes -> Z) p ops c ts,
+  Forall (uses p) ops -> thist_ok 0 ops ->
+  let st := fst (hrun H init_state ops) in
+  opened st = Some c ->
+  check_get_by_time (abs st) (ctimes c) ts (obs_get (log_get_by_time H st ts)) = true.
+Proof. exact OffsetProofs.get_by_time_on_all_monotone_histories. Qed.
+Print Assumptions C10_on_all_monotone_histories.
